@@ -263,7 +263,8 @@ def two_runs(B, G, kind, n, h, a, data, bases):
     lrs = [B.var("lr"), B.var("lr_second")]
     marks = []
     for run, lr in enumerate(lrs):
-        kw = dict(epochs=1, pos_batch_size=2, k=1, lr=lr, callbacks=[cb], optimizer_args=shared)
+        # the second call CONTINUES the first (starting_epoch = 2, epochs = 2: one more epoch) with its own learning rate
+        kw = dict(epochs=1 + run, starting_epoch=1 + run, pos_batch_size=2, k=1, lr=lr, callbacks=[cb], optimizer_args=shared)
         if with_bases:
             kw["input_bases"] = barr
         st.fit(C.rows_tensor(B, data), **kw)
